@@ -141,13 +141,15 @@ Section Transforms.
                            | Some n => match assoc a_refname (attrs_of n) with Some [r] => [r] | _ => [] end
                            | None => []
                            end) (autofootnote_refs f) in
+    (* unreferenced footnotes come after all referenced ones: len(ref_order) *)
+    let last_key : N := N.of_nat (length ref_order) in
     let key (o : N) : N :=
         match nassoc o (objs f) with
         | Some r => match nr_names r with
-                    | nm :: _ => match index_of nm ref_order 0 with Some i => i | None => 999 end
-                    | [] => 999
+                    | nm :: _ => match index_of nm ref_order 0 with Some i => i | None => last_key end
+                    | [] => last_key
                     end
-        | None => 999
+        | None => last_key
         end in
     lift_f (fun f => Good (tt, set_autofootnotes f
                                  (map snd (sort_by (map (fun o => (key o, o)) (autofootnotes f)))))).
@@ -361,7 +363,7 @@ Section Transforms.
             | Some n =>
                 let tg := tag_of n in
                 if str_eqb tg n_target && has_attr a_refid n then Bad ENotModelled
-                else if str_eqb tg n_footnote || has_attr a_refuri n || startswith tg v_desc_ then Good None
+                else if str_eqb tg n_footnote || (str_eqb tg n_target && has_attr a_refuri n) || startswith tg v_desc_ then Good None
                 else
                   let unwrap (x : option str) : outcome (option str) :=
                       match x with Some s => Good (Some s) | None => Bad ENotModelled end in
